@@ -900,9 +900,7 @@ class VectorExpression:
 
     def __rsub__(self, other: float | int) -> VectorExpression:
         # other - self
-        return VectorExpression(
-            [BinaryOp(_ensure_expr(other), expr, "-") for expr in self._expressions]
-        )
+        return _vector_reflected_op(other, self, "-")
 
     def __mul__(self, other: float | int) -> VectorExpression:
         """Scalar multiplication."""
@@ -917,9 +915,7 @@ class VectorExpression:
 
     def __rtruediv__(self, other: float | int) -> VectorExpression:
         """Right scalar division."""
-        return VectorExpression(
-            [BinaryOp(_ensure_expr(other), expr, "/") for expr in self._expressions]
-        )
+        return _vector_reflected_op(other, self, "/")
 
     def __neg__(self) -> VectorExpression:
         """Negate all elements."""
@@ -1234,9 +1230,7 @@ class VectorVariable:
 
     def __rsub__(self, other: float | int) -> VectorExpression:
         """Right subtraction: scalar - vector."""
-        return VectorExpression(
-            [BinaryOp(_ensure_expr(other), v, "-") for v in self._variables]
-        )
+        return _vector_reflected_op(other, self, "-")
 
     def __mul__(self, other: float | int) -> VectorExpression:
         """Scalar multiplication: x * 2."""
@@ -1252,9 +1246,7 @@ class VectorVariable:
 
     def __rtruediv__(self, other: float | int) -> VectorExpression:
         """Right scalar division: 1 / x."""
-        return VectorExpression(
-            [BinaryOp(_ensure_expr(other), v, "/") for v in self._variables]
-        )
+        return _vector_reflected_op(other, self, "/")
 
     def __neg__(self) -> VectorExpression:
         """Negate all elements: -x."""
@@ -1688,6 +1680,47 @@ def _vector_binary_op(
     ]
 
     return VectorExpression(result_exprs)
+
+
+def _vector_reflected_op(
+    left: float | int | np.ndarray | list | tuple | Expression,
+    right: VectorVariable | VectorExpression,
+    op: Literal["-", "/"],
+) -> VectorExpression:
+    """Helper for reflected element-wise operations: ``left op right``.
+
+    ``left`` is a scalar (broadcast to every element) or a 1-D array / list
+    with one entry per element of ``right``.
+
+    Raises:
+        DimensionMismatchError: If an array operand has a different length.
+    """
+    if isinstance(right, VectorVariable):
+        right_exprs: list[Expression] = list(right._variables)
+    else:
+        right_exprs = list(right._expressions)
+
+    if isinstance(left, (np.ndarray, list, tuple)) and np.ndim(left) > 0:
+        arr = np.asarray(left)
+        if arr.ndim != 1:
+            raise WrongDimensionalityError(
+                context=f"vector {op}",
+                expected_ndim=1,
+                got_ndim=arr.ndim,
+            )
+        if len(arr) != len(right_exprs):
+            raise DimensionMismatchError(
+                operation=f"vector {op}",
+                left_shape=len(arr),
+                right_shape=len(right_exprs),
+            )
+        left_exprs: list[Expression] = [Constant(val) for val in arr]
+    else:
+        left_exprs = [_ensure_expr(left)] * len(right_exprs)
+
+    return VectorExpression(
+        [BinaryOp(l, r, op) for l, r in zip(left_exprs, right_exprs)]
+    )
 
 
 def vector_sum(vector: VectorVariable | VectorExpression) -> VectorSum | Expression:
